@@ -602,6 +602,8 @@ class Executor:
             return Opaque('float', float(m.group(1)))
         if t.startswith('b"'):
             return Opaque('bytes', t)
+        if re.match(r'^\{alloc\d+', t):
+            return Ref([Agg('struct', 'StaticAlloc', [], [])], 0)
         m = re.search(r'::promoted\[(\d+)\]$', t)
         if m and frame is not None:
             f = self.prog.consts.get(frame.fn.name + '::promoted[%s]' % m.group(1))
